@@ -32,7 +32,7 @@ from ._eval_ctx import (
 from ._global_ctx import _global_context, PythonId
 from ._lambda_funs import is_lambda, inspect_lambda_condition
 from ._print_ast import pformat
-from ._retrieve_objects import ObjectRetrieval, function_path
+from ._retrieve_objects import ObjectRetrieval, function_path, unwrapped_function
 from .fun_args import dds_hash_commut, HashKey as HK, dds_hash, get_arg_ctx_ast
 from .structures import (
     PyHash,
@@ -520,7 +520,7 @@ class IntroVisitor(_ScopedVisitor):
         ):
             # Quick check that it is indeed a function or a module:
             # TODO: add a test for modules
-            obj = self._start_mod.__dict__[node.id]
+            obj = unwrapped_function(self._start_mod.__dict__[node.id])
             self._store_names.add(LocalVar(node.id))
             # Just handling functions, not modules.
             # Handling modules is more complicated (requires tracing the full call) and it can be easily worked around
